@@ -17,6 +17,7 @@ import YorkieModel.Driver.PresenceEngine
 import YorkieModel.Driver.ProtoEngine
 import YorkieModel.Driver.FDocEngine
 import YorkieModel.Driver.JsonEngine
+import YorkieModel.Driver.PubSubEngine
 open Yorkie.Driver
 
 def engines : List (String × Engine) := [
@@ -39,7 +40,8 @@ def engines : List (String × Engine) := [
   ("pbfuzz", CodecEngine.pbfuzzEngine),
   ("presence", PresenceEngine.engine),
   ("proto", ProtoEngine.engine),
-  ("fdoc", FDocEngine.engine), ("json", JsonEngine.engine)
+  ("fdoc", FDocEngine.engine), ("json", JsonEngine.engine),
+  ("pubsub", PubSubEngine.engine), ("pubsubstress", PubSubEngine.engine)
 ]
 
 partial def loop (e : Engine) (h : IO.FS.Stream) (out : IO.FS.Stream) (st : e.State) : IO Unit := do
